@@ -527,6 +527,14 @@ def _r11(ctx, pkg, cname, cfn):
         params = set(params_of(fn))
         if not params:
             continue
+        if any(isinstance(c, ast.Call) and isinstance(c.func, ast.Name) and c.func.id.startswith("_") and (SP, c.func.id) in pkg.functions for c in ast.walk(fn)):
+            # a piece of the method that was moved into a private FUNCTION of the module (handed cls / self and the locals it needs)
+            # is put back first: its stores into the tables are the method's (helpers that are methods stay the calls they are and
+            # are read through their summaries below)
+            try:
+                fn = pkg.expanded("Species", mname, keep=tuple(ci.methods))
+            except Exception:
+                pass
         try:
             fl = Flow(fn, SP, resolver=proc, proc_resolver=proc)
         except RecursionError:
